@@ -9,7 +9,9 @@ use std::collections::BTreeMap;
 use kvh::caops::*;
 use kvh::sys::*;
 use kvh::util::{coq_list, write_json, Args, CaseWriter, Rng};
+use krill::commons::storage::verif::{set_probe, Event, Probe};
 use krill::commons::storage::Ident;
+use std::sync::{Arc, Mutex};
 use krill::constants::{CASERVER_NS, TASK_QUEUE_NS, TA_PROXY_SERVER_NS};
 use serde_json::{json, Value};
 
@@ -65,45 +67,94 @@ struct Out { w: CaseWriter, jsonl: std::fs::File, kinds: BTreeMap<String, u64>, 
 
 fn opt_n(names: &mut Names, s: Option<&str>) -> String { match s { Some(x) => format!("(Some {})", names.id(x)), None => "None".into() } }
 
-/// Runs `op` with an emptied queue and emits one case per CA whose log grew (and one for the TA proxy).
+/// Records every key-value store write (namespace, scope, key) while an operation runs.
+struct Writes { log: Mutex<Vec<(String, Option<String>, Option<String>)>> }
+impl Probe for Writes {
+    fn on_event(&self, ev: &Event) -> bool {
+        if ev.kind == "store" || ev.kind == "move-value" { self.log.lock().unwrap().push((ev.ns.clone(), ev.scope.clone(), ev.key.clone())); }
+        true
+    }
+}
+
+/// The task name inside a queue key `<millis>-<name>`.
+fn task_name_of_key(k: &str) -> String { k.split_once('-').map(|(_, n)| n.to_string()).unwrap_or_else(|| k.to_string()) }
+
+/// Runs `op` with an emptied queue. The storage probe gives the order of queue writes and command stores, so
+/// the tasks queued between two command stores can be attributed: they were queued by the post-save listener of
+/// the earlier command or the pre-save listener of the later one. One case per stored CA command (its events,
+/// the tasks queued in the windows before and after its store), one per operation for the TA proxy.
 fn observe(sys: &Sys, names: &mut Names, cas: &[String], desc: Value, out: &mut Out, op: &dyn Fn(&Sys)) {
     clear_queue(sys);
     let pre: BTreeMap<String, (u64, Option<Value>)> = cas.iter().map(|h| (h.clone(), (n_commands(sys, CASERVER_NS, h), ca_json(sys, h)))).collect();
     let ta_pre = n_commands(sys, TA_PROXY_SERVER_NS, "ta");
+    let rec = Arc::new(Writes { log: Mutex::new(Vec::new()) });
+    set_probe(Some(rec.clone()));
     op(sys);
+    set_probe(None);
     let pending = pending_tasks(sys);
+    // name -> (kind, ca, parent) of what is pending at the end (nothing runs tasks during the operation)
+    let store = sys.krill.storage().open(TASK_QUEUE_NS).expect("tasks store");
+    let sc = ident("pending");
+    let mut by_name: BTreeMap<String, (String, Option<String>, Option<String>)> = BTreeMap::new();
+    for k in store.keys(Some(&sc), "").unwrap_or_default() {
+        if let Ok(Some(val)) = store.get::<Value>(Some(&sc), &k) {
+            by_name.insert(task_name_of_key(k.as_str()), (camel(val["type"].as_str().unwrap_or("?")), val["ca_handle"].as_str().map(|s| s.to_string()), val["parent"].as_str().map(|s| s.to_string())));
+        }
+    }
+    // windows: tasks queued before each CA command store, in order
+    let mut windows: Vec<(String, u64, Vec<String>)> = Vec::new();   // (ca, version, task names queued since the previous command store)
+    let mut cur: Vec<String> = Vec::new();
+    for (ns, scope, key) in rec.log.lock().unwrap().iter() {
+        let key = key.clone().unwrap_or_default();
+        if ns.trim_end_matches('/').ends_with("tasks") && scope.as_deref() == Some("pending") { cur.push(task_name_of_key(&key)); }
+        else if ns.trim_end_matches('/').ends_with("cas") && key.starts_with("command-") {
+            let v: u64 = key.trim_start_matches("command-").trim_end_matches(".json").parse().unwrap_or(0);
+            windows.push((scope.clone().unwrap_or_default(), v, std::mem::take(&mut cur)));
+        }
+    }
+    let trailing = cur;
+    if std::env::var("KV_DEBUG").is_ok() {
+        let mut seen: std::collections::BTreeSet<String> = Default::default();
+        for (ns, scope, key) in rec.log.lock().unwrap().iter() { seen.insert(format!("{ns} | {:?} | {}", scope, key.clone().unwrap_or_default().chars().take(12).collect::<String>())); }
+        for x in seen.iter().take(12) { eprintln!("write: {x}"); }
+    }
     use std::io::Write;
-    for h in cas {
-        let (v0, pre_ca) = &pre[h];
-        let v1 = n_commands(sys, CASERVER_NS, h);
-        if v1 <= *v0 { continue }
-        let post_ca = ca_json(sys, h);
+    let post_cas: BTreeMap<String, Option<Value>> = cas.iter().map(|h| (h.clone(), ca_json(sys, h))).collect();
+    for (i, (h, v, before)) in windows.iter().enumerate() {
+        if !cas.contains(h) { continue }
+        let Some(sc) = stored_command(sys, CASERVER_NS, h, *v) else { continue };
+        let events = sc["effect"]["events"].as_array().cloned().unwrap_or_default();
+        if events.is_empty() { continue }
+        let after: &Vec<String> = if i + 1 < windows.len() { &windows[i + 1].2 } else { &trailing };
+        let mut window_tasks: Vec<(String, Option<String>, Option<String>)> = before.iter().chain(after.iter()).filter_map(|n| by_name.get(n).cloned()).collect();
+        window_tasks.sort(); window_tasks.dedup();
+        let pre_ca = &pre[h].1;
+        let post_ca = &post_cas[h];
         let mut evs = Vec::new();
         let mut ev_names = Vec::new();
-        for v in *v0..v1 {
-            let Some(sc) = stored_command(sys, CASERVER_NS, h, v) else { continue };
-            for e in sc["effect"]["events"].as_array().cloned().unwrap_or_default() {
-                let name = camel(e["type"].as_str().unwrap_or("?"));
-                let rcn = e["resource_class_name"].as_str();
-                let class_parent = rcn.and_then(|r| {
-                    let look = |c: &Option<Value>| c.as_ref().and_then(|c| c["resources"][r]["parent_handle"].as_str().map(|s| s.to_string()));
-                    look(pre_ca).or_else(|| look(&post_ca))
-                });
-                let parent = e["parent"].as_str().map(|s| s.to_string());
-                let child = e["child"].as_str().map(|s| s.to_string());
-                evs.push(format!("mkEv \"{}\" {} {} {}", name, opt_n(names, class_parent.as_deref()), opt_n(names, parent.as_deref()), opt_n(names, child.as_deref())));
-                *out.events.entry(name.clone()).or_default() += 1;
-                ev_names.push(name);
-            }
+        for e in events {
+            let name = camel(e["type"].as_str().unwrap_or("?"));
+            let rcn = e["resource_class_name"].as_str();
+            let class_parent = rcn.and_then(|r| {
+                let look = |c: &Option<Value>| c.as_ref().and_then(|c| c["resources"][r]["parent_handle"].as_str().map(|s| s.to_string()));
+                look(pre_ca).or_else(|| look(post_ca))
+            });
+            let parent = e["parent"].as_str().map(|s| s.to_string());
+            let child = e["child"].as_str().map(|s| s.to_string());
+            evs.push(format!("mkEv \"{}\" {} {} {}", name, opt_n(names, class_parent.as_deref()), opt_n(names, parent.as_deref()), opt_n(names, child.as_deref())));
+            *out.events.entry(name.clone()).or_default() += 1;
+            ev_names.push(name);
         }
-        if evs.is_empty() { continue }
-        let has_repo = post_ca.as_ref().map(|c| !c["repository"].is_null()).unwrap_or(false);
+        // repository and parents as the listeners saw them: the state after this very command is not kept, the state
+        // after the operation is the closest the API gives (commands of one operation do not remove repository or parents)
+        let has_repo = post_ca.as_ref().map(|c| !c["repository"].is_null()).unwrap_or(false) || pre_ca.as_ref().map(|c| !c["repository"].is_null()).unwrap_or(false);
         let parents: Vec<String> = post_ca.as_ref().and_then(|c| c["parents"].as_object().map(|m| m.keys().cloned().collect())).unwrap_or_default();
         let term = format!("FCmd {} {} {} {} {}", names.id(h), has_repo, coq_list(&parents.iter().map(|p| names.id(p).to_string()).collect::<Vec<_>>()),
-            coq_list(&evs.iter().map(|e| format!("({e})")).collect::<Vec<_>>()), tasks_term(names, &pending));
-        let rec = json!({"index": out.w.total, "kind": "cmd", "ca": h, "op": desc, "events": ev_names, "pending": pending.iter().map(|(k, c, p)| format!("{k}({},{})", c.clone().unwrap_or_default(), p.clone().unwrap_or_default())).collect::<Vec<_>>(),
+            coq_list(&evs.iter().map(|e| format!("({e})")).collect::<Vec<_>>()), tasks_term(names, &window_tasks));
+        let rec_json = json!({"index": out.w.total, "kind": "cmd", "ca": h, "version": v, "op": desc, "events": ev_names,
+            "queued_around_this_command": window_tasks.iter().map(|(k, c, p)| format!("{k}({},{})", c.clone().unwrap_or_default(), p.clone().unwrap_or_default())).collect::<Vec<_>>(),
             "class": {"kind": "cmd"}});
-        writeln!(out.jsonl, "{rec}").unwrap();
+        writeln!(out.jsonl, "{rec_json}").unwrap();
         *out.kinds.entry("cmd".into()).or_default() += 1;
         let mut sig = ev_names.clone(); sig.sort(); sig.dedup();
         out.distinct.insert(format!("cmd|{}", sig.join(",")));
@@ -117,15 +168,14 @@ fn observe(sys: &Sys, names: &mut Names, cas: &[String], desc: Value, out: &mut 
             for e in sc["effect"]["events"].as_array().cloned().unwrap_or_default() {
                 // externally tagged: {"ChildRequestAdded": [...]}
                 let n = e.as_object().and_then(|o| o.keys().next().cloned()).or_else(|| e.as_str().map(|s| s.to_string())).unwrap_or("?".into());
-                if n == "?" && std::env::var("KV_DEBUG").is_ok() { eprintln!("ta event: {}", e.to_string().chars().take(300).collect::<String>()); }
                 ev_names.push(n);
             }
         }
         if !ev_names.is_empty() {
             for n in &ev_names { *out.events.entry(format!("ta:{n}")).or_default() += 1; }
             let term = format!("FTa {} {}", coq_list(&ev_names.iter().map(|n| format!("\"{n}\"")).collect::<Vec<_>>()), tasks_term(names, &pending));
-            let rec = json!({"index": out.w.total, "kind": "ta", "op": desc, "events": ev_names, "class": {"kind": "ta"}});
-            writeln!(out.jsonl, "{rec}").unwrap();
+            let rec_json = json!({"index": out.w.total, "kind": "ta", "op": desc, "events": ev_names, "class": {"kind": "ta"}});
+            writeln!(out.jsonl, "{rec_json}").unwrap();
             *out.kinds.entry("ta".into()).or_default() += 1;
             out.distinct.insert(format!("ta|{}", ev_names.join(",")));
             out.w.push(term);
@@ -188,6 +238,7 @@ fn main() {
         let dir = args.out.join(format!("h{hist}"));
         let mut opts = SysOpts::new(&dir);
         opts.mem_seed = rng.next();
+        opts.disk = true; // the probe names a disk namespace by its path (a memory namespace only by its address)
         let sys = Sys::open(opts);
         sys.bootstrap().expect("bootstrap");
         let mut names = Names::default();
